@@ -15,7 +15,7 @@ pub enum TriviaSet {
     WithFormFeed,
 }
 
-pub const COMMENT_BODIES: &[&str] = &["", " c", " (a . b) \"x", "; λ 中", " #| x |#", " ) ] '", "\t;;"];
+pub const COMMENT_BODIES: &[&str] = &["", " c", " (a . b) \"x", "; λ 中", " #| x |#", " ) ] '", "\t;;", "\0", " a\0b (c", " \x0C x", " \x7f\x1b", " \u{feff}\u{2028}x", " \\", " #;"];
 
 pub fn trivia_piece(rng: &mut Rng, set: TriviaSet, out: &mut String) {
     let k = if set == TriviaSet::WithFormFeed { 6 } else { 5 };
